@@ -370,6 +370,10 @@ class Interp(object):
                 # AttributeError of the code
                 raise OutOfReach("field %s of %s is assigned by the class but not provided by the contract's object "
                                  "(contract needs updating for this version of the code)" % (attr, v.clsname()))
+            if isinstance(v.cls, str):
+                # an abstract stand-in (parser, tree, stream ...) built by a contract: what it does not model is out of
+                # the contract's reach, not an AttributeError of the code
+                raise OutOfReach("the contract's abstract %s has no model of attribute %s" % (v.clsname(), attr))
             raise PyRaise("AttributeError", "%s has no attribute %s" % (v.clsname(), attr))
         if isinstance(v, ClassInfo):
             m = v.find_method(attr)
